@@ -53,7 +53,7 @@ static void emit(int a, int b, int pk)
 /* ---------------- reference receiver ---------------- */
 
 struct rx_slot { int started; int len; uint8_t data[64]; int overflow; unsigned sum; };
-struct delivery { int cls, type, len; uint8_t data[40]; };
+struct delivery { int cls, type, len; uint8_t data[40]; int at; /* pair index of the terminator */ };
 
 static struct rx_slot slots[7][128];
 static struct delivery expect[256], got[256];
@@ -71,12 +71,23 @@ static int supported(int cls, int type)
 static void ref_receive(int quirk)
 {
 	struct rx_slot *cur = NULL;
-	int cur_cls = 0, cur_type = 0, i;
+	int cur_cls = 0, cur_type = 0, i, xds_mode = 0;
 	memset(slots, 0, sizeof slots);
 	n_expect = 0;
 	for (i = 0; i < n_stream; i++) {
 		uint8_t a = stream[i].b[0], b = stream[i].b[1];
 		int c1 = a & 0x7f, c2 = b & 0x7f;
+		if (quirk == 2) {
+			/* Framing as the service decoder applies it (the statement's delivery clause is about the
+			 * demultiplexer; for the announcement clause we take the service decoder's notion of
+			 * "received packet" as given): a caption control code suspends XDS *data* but an End code
+			 * still closes the suspended packet without a Continue; stuffing (first byte NUL) is
+			 * skipped before the parity test; parity errors outside XDS mode do not touch XDS state. */
+			if (par_ok(a) && c1 == 0) continue;
+			if (par_ok(a) && c1 >= 0x10 && c1 <= 0x1F) { xds_mode = 0; continue; }
+			if (par_ok(a) && c1 >= 1 && c1 <= 0x0F) xds_mode = (c1 != 0x0F);
+			else if (!xds_mode) continue;
+		}
 		if (!par_ok(a) || !par_ok(b)) {
 			if (cur) { memset(cur, 0, sizeof *cur); }
 			cur = NULL;
@@ -86,9 +97,11 @@ static void ref_receive(int quirk)
 		if (c1 >= 1 && c1 <= 0x0E) {
 			int cls = (c1 - 1) >> 1;
 			struct rx_slot *s = &slots[cls][c2];
-			if (quirk) {
+			if (quirk == 1) {
 				if (!supported(cls, c2)) { cur = NULL; continue; }
 				if (c2 >= 0x40) s = &slots[cls][c2 - 0x30];
+			} else if (quirk == 2) { /* service decoder: classes 0-3, types 0x00-0x17 */
+				if (cls > 3 || c2 >= 0x18) { cur = NULL; continue; }
 			}
 			if (c1 & 1) {
 				memset(s, 0, sizeof *s);
@@ -107,7 +120,7 @@ static void ref_receive(int quirk)
 			cur->sum += (unsigned)(c1 + c2);
 			if (0 == (cur->sum & 0x7f) && cur->len > 0 && !cur->overflow && n_expect < 256) {
 				struct delivery *d = &expect[n_expect++];
-				d->cls = cur_cls; d->type = cur_type; d->len = cur->len;
+				d->cls = cur_cls; d->type = cur_type; d->len = cur->len; d->at = i;
 				memcpy(d->data, cur->data, (size_t)cur->len);
 			}
 			memset(cur, 0, sizeof *cur);
@@ -156,16 +169,281 @@ static vbi_bool demux_cb(vbi_xds_demux *xd, const vbi_xds_packet *xp, void *ud)
 }
 
 static int n_prog_info, n_network, n_aspect;
+
+/* events captured during one vbi_decode call */
+struct pi_snap {
+	int future, month, day, hour, min, tape_delayed;
+	int length_hour, length_min, elapsed_hour, elapsed_min, elapsed_sec;
+	char title[64];
+	int rating_auth, rating_id, rating_dlsv;
+};
+static struct pi_snap ev_pi[8];
+static int ev_n_pi;
+static struct { char name[64], call[40]; } ev_net[8];
+static int ev_n_net, ev_n_netid;
+
 static void ev_handler(vbi_event *ev, void *ud)
 {
 	(void)ud;
 	if (ev->type == VBI_EVENT_PROG_INFO) {
 		vbi_program_info *pi = ev->ev.prog_info;
-		volatile size_t l = strlen((const char *)pi->title);
-		(void)l;
 		n_prog_info++;
-	} else if (ev->type == VBI_EVENT_NETWORK) n_network++;
+		if (ev_n_pi < 8) {
+			struct pi_snap *q = &ev_pi[ev_n_pi++];
+			q->future = pi->future; q->month = pi->month; q->day = pi->day; q->hour = pi->hour; q->min = pi->min;
+			q->tape_delayed = pi->tape_delayed;
+			q->length_hour = pi->length_hour; q->length_min = pi->length_min;
+			q->elapsed_hour = pi->elapsed_hour; q->elapsed_min = pi->elapsed_min; q->elapsed_sec = pi->elapsed_sec;
+			memcpy(q->title, pi->title, 64); q->title[63] = 0;
+			q->rating_auth = (int)pi->rating_auth; q->rating_id = pi->rating_id; q->rating_dlsv = pi->rating_dlsv;
+		}
+	} else if (ev->type == VBI_EVENT_NETWORK) {
+		n_network++;
+		if (ev_n_net < 8) {
+			memcpy(ev_net[ev_n_net].name, ev->ev.network.name, 64); ev_net[ev_n_net].name[63] = 0;
+			memcpy(ev_net[ev_n_net].call, ev->ev.network.call, 40); ev_net[ev_n_net].call[39] = 0;
+			ev_n_net++;
+		}
+	} else if (ev->type == VBI_EVENT_NETWORK_ID) ev_n_netid++;
 	else if (ev->type == VBI_EVENT_ASPECT) n_aspect++;
+}
+
+/* Independent decode of the programme information packets (EIA-608 / CEA-608
+ * section 9.5.1: classes Current (0) and Future (1)).  Only the types the
+ * property names and whose layout is unambiguous are modelled:
+ *   01 programme identification number: minute(6) hour(5) date(5) month(4)+tape delay
+ *   02 length / elapsed time: min hour [min hour [sec NUL]]
+ *   03 programme name: 2-32 characters
+ *   05 content advisory: system a1a0 (+a3a2), rating r / g, flags D L S V  */
+struct pi_dec { int valid; int v[6]; char str[40]; };
+
+static void strip(char *dst, const uint8_t *src, int len)
+{
+	int n = 0;
+	while (len > 0 && *src <= 0x20) { src++; len--; }
+	while (len-- > 0) { dst[n++] = (char)(*src < 0x20 ? 0x20 : *src); src++; }
+	dst[n] = 0;
+}
+
+static void pi_decode(struct pi_dec *d, int type, const uint8_t *b, int len)
+{
+	memset(d, 0, sizeof *d);
+	switch (type) {
+	case 1:
+		if (len != 4) return;
+		d->v[0] = b[0] & 0x3f; d->v[1] = b[1] & 0x1f; d->v[2] = b[2] & 0x1f; d->v[3] = b[3] & 0x0f; d->v[4] = !!(b[3] & 0x10);
+		if (d->v[0] > 59 || d->v[1] > 23 || d->v[2] < 1 || d->v[2] > 31 || d->v[3] < 1 || d->v[3] > 12) return;
+		d->valid = 1; return;
+	case 2:
+		if (len != 2 && len != 4 && len != 5 && len != 6) return;
+		d->v[0] = b[0] & 0x3f; d->v[1] = b[1] & 0x3f; d->v[2] = d->v[3] = d->v[4] = -2; /* -2 = not carried */
+		if (len >= 4) { d->v[2] = b[2] & 0x3f; d->v[3] = b[3] & 0x3f; }
+		if (len >= 5) d->v[4] = b[4] & 0x3f;
+		if (d->v[0] > 59 || d->v[2] > 59 || d->v[4] > 59) return;
+		d->valid = 1; return;
+	case 3:
+		if (len < 2) return;
+		strip(d->str, b, len);       /* an all-blank title decodes to "", i.e. unknown */
+		d->valid = 1; return;
+	case 5: {
+		int a0 = !!(b[0] & 0x08), a1 = !!(b[0] & 0x10), a2 = !!(b[0] & 0x20), a3, r = b[0] & 7, g;
+		if (len != 2) return;
+		a3 = !!(b[1] & 0x08); g = b[1] & 7;
+		d->v[2] = 0;
+		if (!a0) {                 /* MPA */
+			if (r == 0) return;    /* N/A: nothing to announce */
+			d->v[0] = 1; d->v[1] = r;
+		} else if (!a1) {          /* US TV parental guidelines */
+			d->v[0] = 2; d->v[1] = g;
+			d->v[2] = (a2 ? 8 : 0) | ((b[1] & 0x08) ? 4 : 0) | ((b[1] & 0x10) ? 2 : 0) | ((b[1] & 0x20) ? 1 : 0); /* D L S V */
+		} else if (!a3) {          /* Canadian */
+			if (!a2) { if (g > 6) return; d->v[0] = 3; } else { if (g > 5) return; d->v[0] = 4; }
+			d->v[1] = g;
+		} else return;             /* reserved */
+		d->valid = 1; return; }
+	}
+}
+
+static int pi_dec_equal(const struct pi_dec *a, const struct pi_dec *b)
+{
+	/* elapsed seconds are optional (type 02): a packet without them repeats one with them
+	 * when everything else agrees - the standard does not say otherwise, so be tolerant */
+	if (a->valid && b->valid && (a->v[4] == -2 || b->v[4] == -2) && a->v[4] != b->v[4]) {
+		struct pi_dec c = *a, d = *b;
+		c.v[4] = d.v[4] = -2;
+		return 0 == memcmp(c.v, d.v, sizeof c.v) && 0 == strcmp(c.str, d.str);
+	}
+	return a->valid && b->valid && 0 == memcmp(a->v, b->v, sizeof a->v) && 0 == strcmp(a->str, b->str);
+}
+
+/* does the announced programme info agree with the decoded packet of this type? */
+static int pi_matches(const struct pi_snap *q, int type, const struct pi_dec *d, char *why, size_t wl)
+{
+	switch (type) {
+	case 1:
+		if (q->min == d->v[0] && q->hour == d->v[1] && q->day == d->v[2] - 1 && q->month == d->v[3] - 1 && q->tape_delayed == d->v[4]) return 1;
+		snprintf(why, wl, "PIN sent min %d hour %d date %d month %d T %d; announced min %d hour %d day(0-based) %d month(0-based) %d T %d",
+			 d->v[0], d->v[1], d->v[2], d->v[3], d->v[4], q->min, q->hour, q->day, q->month, q->tape_delayed);
+		return 0;
+	case 2:
+		if (q->length_min == d->v[0] && q->length_hour == d->v[1]
+		    && (d->v[2] == -2 || (q->elapsed_min == d->v[2] && q->elapsed_hour == d->v[3]))
+		    && (d->v[4] == -2 || q->elapsed_sec == d->v[4])) return 1;
+		snprintf(why, wl, "length sent %d:%02d elapsed %d:%02d:%02d (-2 = not carried); announced %d:%02d elapsed %d:%02d:%02d",
+			 d->v[1], d->v[0], d->v[3], d->v[2], d->v[4], q->length_hour, q->length_min, q->elapsed_hour, q->elapsed_min, q->elapsed_sec);
+		return 0;
+	case 3:
+		if (0 == strcmp(q->title, d->str)) return 1;
+		snprintf(why, wl, "title sent '%s' announced '%s'", d->str, q->title);
+		return 0;
+	case 5: {
+		int auth = q->rating_auth == VBI_RATING_AUTH_MPAA ? 1 : q->rating_auth == VBI_RATING_AUTH_TV_US ? 2 :
+			q->rating_auth == VBI_RATING_AUTH_TV_CA_EN ? 3 : q->rating_auth == VBI_RATING_AUTH_TV_CA_FR ? 4 : 0;
+		int dlsv = ((q->rating_dlsv & VBI_RATING_D) ? 8 : 0) | ((q->rating_dlsv & VBI_RATING_L) ? 4 : 0)
+			| ((q->rating_dlsv & VBI_RATING_S) ? 2 : 0) | ((q->rating_dlsv & VBI_RATING_V) ? 1 : 0);
+		if (auth == d->v[0] && q->rating_id == d->v[1] && dlsv == d->v[2]) return 1;
+		snprintf(why, wl, "rating sent system %d id %d DLSV 0x%x; announced system %d id %d DLSV 0x%x", d->v[0], d->v[1], d->v[2], auth, q->rating_id, dlsv);
+		return 0; }
+	}
+	return 1;
+}
+
+static int pi_field_unknown(const struct pi_snap *q, int type)
+{
+	switch (type) {
+	case 1: return q->month == -1 && q->day == -1 && q->hour == -1 && q->min == -1;
+	case 2: return q->length_hour == -1 && q->length_min == -1;
+	case 3: return q->title[0] == 0;
+	case 5: return q->rating_auth == VBI_RATING_AUTH_NONE;
+	}
+	return 1;
+}
+
+static int monitored_type(int t) { return t == 1 || t == 2 || t == 3 || t == 5; }
+
+/* Feed the stream to the service decoder and check every announcement against
+ * the packets the reference receiver says were delivered. */
+static void service_decoder_monitor(void)
+{
+	vbi_decoder *vbi;
+	double t = 1000.0;
+	int i, k, nd = 0;
+	struct pi_dec last[2][8], prev_same;      /* latest valid decode per class/type */
+	int have_last[2][8];
+	char net_name_prev[40] = "", net_name_last[40] = "", net_call_last[40] = "";
+	int have_name = 0, n_delivered_monitored = 0, n_announced = 0;
+	int first_pair_repeat_expected = -1;
+
+	ref_receive(2);
+	memset(have_last, 0, sizeof have_last);
+	/* completeness: if the first two deliveries of the whole stream are identical valid
+	 * monitored packets the second must be announced (documented repeat on a fresh decoder) */
+	if (n_expect >= 2 && expect[0].cls <= 1 && monitored_type(expect[0].type)
+	    && expect[0].cls == expect[1].cls && expect[0].type == expect[1].type) {
+		struct pi_dec a, b;
+		pi_decode(&a, expect[0].type, expect[0].data, expect[0].len);
+		pi_decode(&b, expect[1].type, expect[1].data, expect[1].len);
+		if (pi_dec_equal(&a, &b) && !(expect[0].type == 3 && !a.str[0])) first_pair_repeat_expected = expect[1].at;
+	}
+
+	vf_phase("vbi_decode");
+	vbi = vbi_decoder_new();
+	if (!vbi) { vf_fail("harness:alloc", "vbi_decoder_new failed"); return; }
+	n_prog_info = n_network = n_aspect = 0;
+	vbi_event_handler_register(vbi, VBI_EVENT_PROG_INFO | VBI_EVENT_NETWORK | VBI_EVENT_NETWORK_ID | VBI_EVENT_ASPECT | VBI_EVENT_CAPTION, ev_handler, NULL);
+	for (i = 0; i < n_stream; i++) {
+		vbi_sliced sl[2];
+		const struct delivery *d = NULL;
+		memset(sl, 0, sizeof sl);
+		sl[0].id = VBI_SLICED_CAPTION_525_F1; sl[0].line = 21; sl[0].data[0] = 0x80; sl[0].data[1] = 0x80;
+		sl[1].id = VBI_SLICED_CAPTION_525_F2; sl[1].line = 284;
+		sl[1].data[0] = stream[i].b[0]; sl[1].data[1] = stream[i].b[1];
+		ev_n_pi = ev_n_net = ev_n_netid = 0;
+		vbi_decode(vbi, sl, 2, t);
+		t += 1 / 29.97;
+		while (nd < n_expect && expect[nd].at < i) nd++;
+		if (nd < n_expect && expect[nd].at == i) d = &expect[nd];
+
+		if (ev_n_pi && (!d || d->cls > 1)) {
+			vf_fail("model:C09:prog-info-without-packet", "VBI_EVENT_PROG_INFO raised at pair %d where no class 0/1 packet completed (%s)", i,
+				d ? "packet of another class" : "no deliverable packet ends here");
+			continue;
+		}
+		if (ev_n_net && (!d || d->cls != 2)) {
+			vf_fail("model:C09:network-without-packet", "VBI_EVENT_NETWORK raised at pair %d where no channel-class packet completed", i);
+			continue;
+		}
+		if (!d) continue;
+
+		if (d->cls <= 1 && monitored_type(d->type)) {
+			struct pi_dec dec;
+			char why[300] = "";
+			pi_decode(&dec, d->type, d->data, d->len);
+			n_delivered_monitored++;
+			if (ev_n_pi > 1)
+				vf_fail("model:C09:prog-info-twice", "%d VBI_EVENT_PROG_INFO for one packet class %d type %d at pair %d", ev_n_pi, d->cls, d->type, i);
+			if (ev_n_pi >= 1) {
+				const struct pi_snap *q = &ev_pi[0];
+				n_announced++;
+				if (!dec.valid)
+					vf_fail("model:C09:announced-invalid-packet", "PROG_INFO after an invalid class %d type %d packet %s", d->cls, d->type, vf_hex(d->data, (size_t)d->len));
+				else {
+					if (q->future != d->cls)
+						vf_fail("model:C09:wrong-programme", "packet class %d announced with future=%d", d->cls, q->future);
+					/* documented repeat: the previous valid packet of this type carried the same values */
+					prev_same = last[d->cls][d->type];
+					if (!have_last[d->cls][d->type] || !pi_dec_equal(&prev_same, &dec))
+						vf_fail("model:C09:announced-without-repeat", "class %d type %d %s announced although the previous packet of this type %s",
+							d->cls, d->type, vf_hex(d->data, (size_t)d->len), have_last[d->cls][d->type] ? "carried other values" : "does not exist");
+					if (!pi_matches(q, d->type, &dec, why, sizeof why))
+						vf_fail("model:C09:prog-info-content", "class %d type %d: %s", d->cls, d->type, why);
+					/* the other monitored fields: unknown or what their latest valid packet said */
+					for (k = 1; k <= 5; k++) {
+						if (!monitored_type(k) || k == d->type) continue;
+						if (pi_field_unknown(q, k)) continue;
+						if (!have_last[d->cls][k])
+							vf_fail("model:C09:prog-info-field-from-nowhere", "class %d: field of type %d is set but no valid packet of that type was delivered", d->cls, k);
+						else if (!pi_matches(q, k, &last[d->cls][k], why, sizeof why))
+							vf_fail("model:C09:prog-info-stale-field", "class %d type %d (announced with type %d): %s", d->cls, k, d->type, why);
+					}
+				}
+			} else if (i == first_pair_repeat_expected) {
+				vf_fail("model:C09:repeat-not-announced", "fresh decoder, class %d type %d sent twice identically (%s): no VBI_EVENT_PROG_INFO on the repeat",
+					d->cls, d->type, vf_hex(d->data, (size_t)d->len));
+			}
+			if (dec.valid) { last[d->cls][d->type] = dec; have_last[d->cls][d->type] = 1; }
+		} else if (d->cls <= 1 && ev_n_pi > 1) {
+			vf_fail("model:C09:prog-info-twice", "%d VBI_EVENT_PROG_INFO for one packet class %d type %d", ev_n_pi, d->cls, d->type);
+		}
+
+		if (d->cls == 2 && d->type == 1) {           /* network name */
+			char name[40];
+			strip(name, d->data, d->len);
+			strcpy(net_name_prev, net_name_last);
+			if (ev_n_net > 1)
+				vf_fail("model:C09:network-twice", "%d VBI_EVENT_NETWORK for one network name packet", ev_n_net);
+			if (ev_n_net >= 1) {
+				if (0 != strcmp(ev_net[0].name, name))
+					vf_fail("model:C09:network-name", "network name sent '%s' announced '%s'", name, ev_net[0].name);
+				if (!have_name || 0 != strcmp(net_name_prev, name))
+					vf_fail("model:C09:announced-without-repeat", "network name '%s' announced although the previous name packet %s", name,
+						have_name ? "differed" : "does not exist");
+				if (ev_net[0].call[0] && 0 != strcmp(ev_net[0].call, net_call_last))
+					vf_fail("model:C09:network-call", "call letters announced '%s', latest sent '%s'", ev_net[0].call, net_call_last);
+				vf_count("network_announced", 1);
+			}
+			strcpy(net_name_last, name); have_name = 1;
+		} else if (d->cls == 2 && d->type == 2) {
+			strip(net_call_last, d->data, d->len);
+		}
+	}
+	vf_phase("vbi_decoder_delete");
+	vbi_decoder_delete(vbi);
+	vf_count("prog_info_events", n_prog_info);
+	vf_count("network_events", n_network);
+	vf_count("aspect_events", n_aspect);
+	vf_count("monitored_packets_delivered_to_service_decoder", n_delivered_monitored);
+	vf_count("prog_info_announcements_checked", n_announced);
 }
 
 /* ---------------- generator ---------------- */
@@ -198,6 +476,44 @@ static void gen_packet(struct vf_rng *r, struct pk *p, int domain)
 	for (i = 0; i < p->len; i++)
 		p->data[i] = (uint8_t)vf_range(r, 0x20, 0x7f);
 	p->bad_sum = vf_chance(r, 1, 6);
+}
+
+
+static void gen_semantic(struct vf_rng *r, struct pk *p)
+{
+	int i;
+	memset(p, 0, sizeof *p);
+	p->cls = (int)vf_below(r, 2);
+	switch (vf_below(r, 7)) {
+	case 0: /* PIN */
+		p->type = 1; p->len = 4;
+		p->data[0] = (uint8_t)(0x40 | vf_range(r, 0, vf_chance(r, 1, 8) ? 63 : 59));
+		p->data[1] = (uint8_t)(0x40 | vf_range(r, 0, vf_chance(r, 1, 8) ? 31 : 23));
+		p->data[2] = (uint8_t)(0x40 | vf_range(r, vf_chance(r, 1, 8) ? 0 : 1, 31));
+		p->data[3] = (uint8_t)(0x40 | vf_range(r, vf_chance(r, 1, 8) ? 0 : 1, vf_chance(r, 1, 8) ? 15 : 12) | (vf_chance(r, 1, 2) ? 0x10 : 0));
+		break;
+	case 1: /* length / elapsed */
+		p->type = 2; p->len = (int[]){2, 4, 5, 6}[vf_below(r, 4)];
+		for (i = 0; i < p->len; i++) p->data[i] = (uint8_t)(0x40 | vf_range(r, 0, (i & 1) ? 63 : (vf_chance(r, 1, 8) ? 63 : 59)));
+		if (p->len == 6) p->data[5] = 0x40;
+		break;
+	case 2: case 3: /* title */
+		p->type = 3; p->len = vf_range(r, 2, 32);
+		for (i = 0; i < p->len; i++) p->data[i] = (uint8_t)(vf_chance(r, 1, 6) ? 0x20 : vf_range(r, 0x21, 0x7e));
+		break;
+	case 4: /* rating */
+		p->type = 5; p->len = 2;
+		p->data[0] = (uint8_t)(0x40 | vf_below(r, 64)); p->data[1] = (uint8_t)(0x40 | vf_below(r, 64));
+		break;
+	case 5: /* network name */
+		p->cls = 2; p->type = 1; p->len = vf_range(r, 2, 32);
+		for (i = 0; i < p->len; i++) p->data[i] = (uint8_t)(vf_chance(r, 1, 6) ? 0x20 : vf_range(r, 0x41, 0x5a));
+		break;
+	default: /* call letters */
+		p->cls = 2; p->type = 2; p->len = vf_range(r, 4, 6);
+		for (i = 0; i < p->len; i++) p->data[i] = (uint8_t)vf_range(r, 0x41, 0x5a);
+		break;
+	}
 }
 
 /* Emit the packets interleaved.  Each packet is cut into runs of pairs; a run
@@ -325,7 +641,7 @@ static void compare(const char *iface)
 static int run_case(struct vf_rng *r, long idx)
 {
 	struct pk pk[MAXPK];
-	int npk, i, nf, kinds = 0, domain, midnul, maxlen = 0, depth, intended = 0;
+	int npk, i, nf, kinds = 0, domain, midnul, maxlen = 0, depth, intended = 0, semantic;
 	vbi_xds_demux *xd;
 	char desc[400];
 	int o = 0;
@@ -335,10 +651,24 @@ static int run_case(struct vf_rng *r, long idx)
 	 * domain 1 = hostile: any type, zero length, NUL in the middle of a packet */
 	domain = vf_chance(r, 1, 3);
 	midnul = domain && vf_chance(r, 1, 2);
+	semantic = !domain && vf_chance(r, 1, 2);
+	if (semantic) {
+		/* programme / network information scenario: a small pool of meaningful packets, repeated */
+		struct pk pool[5];
+		int npool = vf_range(r, 1, 4), j;
+		for (j = 0; j < npool; j++) gen_semantic(r, &pool[j]);
+		npk = vf_range(r, 2, 12);
+		for (i = 0; i < npk; i++) {
+			pk[i] = pool[(i == 1 && vf_chance(r, 1, 2)) ? 0 : (i == 0 ? 0 : (int)vf_below(r, (unsigned)npool))];
+			if (vf_chance(r, 1, 12)) pk[i].bad_sum = 1;
+		}
+		for (i = 0; i < npk; i++) if (pk[i].len > maxlen) maxlen = pk[i].len;
+	} else {
 	npk = vf_range(r, 1, vf_chance(r, 1, 2) ? 3 : 8);
 	for (i = 0; i < npk; i++) {
 		gen_packet(r, &pk[i], domain);
 		if (pk[i].len > maxlen) maxlen = pk[i].len;
+	}
 	}
 	depth = npk;
 	gen_stream(r, pk, npk, midnul);
@@ -355,6 +685,12 @@ static int run_case(struct vf_rng *r, long idx)
 		o += snprintf(desc + o, sizeof desc - (size_t)o, "%d/%02x/%d%s ", pk[i].cls, pk[i].type, pk[i].len, pk[i].bad_sum ? "!" : "");
 	vf_sample("packets(class/type/len,!=bad checksum): %s pairs=%d faults=%d kinds=0x%x midnul=%d -> deliverable=%d", desc, n_stream, nf, kinds, midnul, n_expect);
 
+	if (vf_verbose) {
+		for (i = 0; i < n_stream; i++)
+			vf_log("%s%02x%02x%s", (i % 16) ? " " : "\n  ", stream[i].b[0] & 0x7f, stream[i].b[1] & 0x7f,
+			       (par_ok(stream[i].b[0]) && par_ok(stream[i].b[1])) ? "" : "!");
+		vf_log("\n");
+	}
 	/* cross-check model against packetiser bookkeeping on fault-free, in-domain streams */
 	if (!nf && !midnul) {
 		for (i = 0; i < npk; i++)
@@ -390,35 +726,14 @@ static int run_case(struct vf_rng *r, long idx)
 	compare("feed_frame");
 	vbi_xds_demux_delete(xd);
 
-	/* 3. service decoder: robustness + events */
-	{
-		vbi_decoder *vbi;
-		double t = 1000.0;
-		vf_phase("vbi_decode");
-		vbi = vbi_decoder_new();
-		if (!vbi) { vf_fail("harness:alloc", "vbi_decoder_new failed"); return 0; }
-		n_prog_info = n_network = n_aspect = 0;
-		vbi_event_handler_register(vbi, VBI_EVENT_PROG_INFO | VBI_EVENT_NETWORK | VBI_EVENT_ASPECT | VBI_EVENT_CAPTION, ev_handler, NULL);
-		for (i = 0; i < n_stream; i++) {
-			vbi_sliced sl[2];
-			memset(sl, 0, sizeof sl);
-			sl[0].id = VBI_SLICED_CAPTION_525_F1; sl[0].line = 21; sl[0].data[0] = 0x80; sl[0].data[1] = 0x80;
-			sl[1].id = VBI_SLICED_CAPTION_525_F2; sl[1].line = 284;
-			sl[1].data[0] = stream[i].b[0]; sl[1].data[1] = stream[i].b[1];
-			vbi_decode(vbi, sl, 2, t);
-			t += 1 / 29.97;
-		}
-		vf_phase("vbi_decoder_delete");
-		vbi_decoder_delete(vbi);
-		vf_count("prog_info_events", n_prog_info);
-		vf_count("network_events", n_network);
-		vf_count("aspect_events", n_aspect);
-	}
+	/* 3. service decoder: robustness + announcements versus delivered packets */
+	service_decoder_monitor();
 	vf_count("pairs", n_stream);
 	vf_count("packets_sent", npk);
 	vf_count("packets_deliverable", n_expect);
 	if (n_expect == 0 && !nf) return 0;
-	vf_sig("npk=%d maxlen=%s depth=%d faults=0x%x midnul=%d unsup=%d deliv=%d", npk > 3 ? 4 : npk,
+	if (semantic) vf_count("semantic_scenarios", 1);
+	vf_sig("sem=%d npk=%d maxlen=%s depth=%d faults=0x%x midnul=%d unsup=%d deliv=%d", semantic, npk > 3 ? 4 : npk,
 	       maxlen > 32 ? ">32" : maxlen == 32 ? "32" : maxlen >= 29 ? "29-31" : (maxlen & 1) ? "odd" : "even",
 	       depth > 2 ? 3 : depth, kinds, midnul, has_unsupported, n_expect > 2 ? 3 : n_expect);
 	return 1;
